@@ -1190,7 +1190,10 @@ pub fn render_c12(s: &C12Scn, r: &Render) -> Vec<u8> {
                 h.extend_from_slice(&rec.head);
                 lines.push(h);
                 lines.push(esc::from_str(rec.lines.first().map(|x| x.as_str()).unwrap_or("")).unwrap_or_default());
-                lines.push(vec![b'+']);
+                // (an optional third entry is the text that follows the '+' of the separator line)
+                let mut sep = vec![b'+'];
+                sep.extend(esc::from_str(rec.lines.get(2).map(|x| x.as_str()).unwrap_or("")).unwrap_or_default());
+                lines.push(sep);
                 lines.push(esc::from_str(rec.lines.get(1).map(|x| x.as_str()).unwrap_or("")).unwrap_or_default());
             }
         }
@@ -1227,7 +1230,14 @@ pub fn gen_c12(rng: &Rng, tier: Tier) -> C12Scn {
         Fmt::Fastq => {
             let a = gen_afastq(rng, max_recs, true);
             for (h, s, q) in a.recs {
-                recs.push(ARec { head: h, lines: vec![esc::to_string(&s), esc::to_string(&q)] });
+                let mut lines = vec![esc::to_string(&s), esc::to_string(&q)];
+                // separator lines of differing lengths: bare, the header repeated, or a short text
+                match rng.below(8) {
+                    0 => lines.push(esc::to_string(&h)),
+                    1 | 2 => lines.push(esc::to_string(&(0..rng.range(1, 4)).map(|_| *rng.pick(b"r12+@ a")).collect::<Vec<u8>>())),
+                    _ => {}
+                }
+                recs.push(ARec { head: h, lines });
             }
         }
     }
